@@ -215,6 +215,18 @@ func classifierFor(th float64, sel corpusSel) *Classifier {
 	return c
 }
 
+// privateClassifier builds a classifier nobody else uses (for cases that call Normalize, which adds to the dictionary).
+func privateClassifier(th float64, sel corpusSel) *Classifier {
+	c := NewClassifier(th)
+	for _, f := range sel.files() {
+		if sel.ReAdd && (strings.HasPrefix(f.Name, "Synth-") || !sel.Full) {
+			c.AddContent(f.Cat, f.Name, f.Variant, olderRevision(f.Content))
+		}
+		c.AddContent(f.Cat, f.Name, f.Variant, f.Content)
+	}
+	return c
+}
+
 // fullThreshold draws a threshold for a full-corpus case. Building the 431-document corpus costs
 // 0.6 s and 70 MB, so each shard process works with two thresholds only: the default 0.8 and one
 // menu value determined by its shard number (all menu values are covered across the shards).
